@@ -5,11 +5,10 @@ CONSTANTS
   Acceptors = {1, 2}
   MaxAccepts = 2
   Closers = {1, 2}
-  WithListen = TRUE
+  WithListen = FALSE
   AsIs_ErrChan = FALSE
   AsIs_BindErr = FALSE
   Mut = "none"
 SPECIFICATION Spec
 INVARIANTS TypeOK NoPanic QueueLaw NoDuplicate DroppedStayDropped QueueErrOnlyAfterClose AcceptErrOnlyAfterClose CloseMeansClosed QueueNeverClosed ListenErrReported NoStuck
-PROPERTIES QueueReturns AcceptReturns CloseReturns NoLeak
 CHECK_DEADLOCK FALSE
